@@ -76,15 +76,15 @@ end KernelSpec
 
 /-! ### list plumbing -/
 
-theorem zip_map_fst_snd' {β γ : Type} (l : List (β × γ)) : (l.map (·.1)).zip (l.map (·.2)) = l := by
+private theorem zip_map_fst_snd' {β γ : Type} (l : List (β × γ)) : (l.map (·.1)).zip (l.map (·.2)) = l := by
   induction l with
   | nil => rfl
   | cons a l ih => simp [ih]
 
-theorem take_app_len {β : Type} (l r : List β) (n : Nat) (h : l.length = n) : (l ++ r).take n = l := by
+private theorem take_app_len {β : Type} (l r : List β) (n : Nat) (h : l.length = n) : (l ++ r).take n = l := by
   subst h; simp
 
-theorem drop_app_len {β : Type} (l r : List β) (n : Nat) (h : l.length = n) : (l ++ r).drop n = r := by
+private theorem drop_app_len {β : Type} (l r : List β) (n : Nat) (h : l.length = n) : (l ++ r).drop n = r := by
   subst h; simp
 
 /-! ### 2. cursor synchronisation -/
@@ -270,14 +270,14 @@ theorem buildForcing_eq (m : NameMap) (procs : List (Process α)) :
         cases h3 : List.flatMap (fun p => unknownReactants m p.reactants ++ unknownProducts m p.products) ps with
         | cons e l => rfl
         | nil => rfl
-theorem headMatch_ok_iff {ε β : Type} (l : List ε) (v t : β) :
+private theorem headMatch_ok_iff {ε β : Type} (l : List ε) (v t : β) :
     firstErrOr l v = Except.ok t ↔ l = [] ∧ t = v := by
   unfold firstErrOr
   cases l with
   | nil => simp [eq_comm]
   | cons a l => simp
 
-theorem headMatch_error_iff {ε β : Type} (l : List ε) (v : β) (e : ε) :
+private theorem headMatch_error_iff {ε β : Type} (l : List ε) (v : β) (e : ε) :
     firstErrOr l v = Except.error e ↔ l.head? = some e := by
   unfold firstErrOr
   cases l with
@@ -391,7 +391,7 @@ theorem mapM_resolve_ok (m : NameMap) (procs : List (Process α)) (rxns : List (
       rw [List.mapM_cons, h1, h2, ih rxs h3]
       rfl
 
-theorem build_ok_forcing_fields {m : NameMap} {procs : List (Process α)} {t : PSTables α}
+theorem ProcessSet.build_ok_forcing_fields {m : NameMap} {procs : List (Process α)} {t : PSTables α}
     (h : ProcessSet.build procs m = .ok t) :
     ∃ t0, buildForcing m procs = .ok t0 ∧ t.nReact = t0.nReact ∧ t.reactIds = t0.reactIds ∧
       t.nProd = t0.nProd ∧ t.prodIds = t0.prodIds ∧ t.yields = t0.yields := by
@@ -409,7 +409,7 @@ theorem build_ok_forcing_fields {m : NameMap} {procs : List (Process α)} {t : P
     | error e => cases h
     | ok v => cases h; exact ⟨rfl, rfl, rfl, rfl, rfl⟩
 
-theorem build_error_iff (m : NameMap) (procs : List (Process α)) (e : PSErr) :
+theorem ProcessSet.build_error_iff (m : NameMap) (procs : List (Process α)) (e : PSErr) :
     ProcessSet.build procs m = .error e ↔ buildForcing m procs = .error e := by
   unfold ProcessSet.build
   cases h0 : buildForcing m procs with
@@ -423,16 +423,16 @@ theorem build_error_iff (m : NameMap) (procs : List (Process α)) (e : PSErr) :
       cases h
     · intro h; cases h
 
-theorem build_isOk_iff (m : NameMap) (procs : List (Process α)) :
+theorem ProcessSet.build_isOk_iff (m : NameMap) (procs : List (Process α)) :
     (∃ t, ProcessSet.build procs m = .ok t) ↔ ∃ t0, buildForcing m procs = .ok t0 := by
   constructor
   · rintro ⟨t, h⟩
-    obtain ⟨t0, h0, -⟩ := build_ok_forcing_fields h
+    obtain ⟨t0, h0, -⟩ := ProcessSet.build_ok_forcing_fields h
     exact ⟨t0, h0⟩
   · rintro ⟨t0, h0⟩
     cases hb : ProcessSet.build procs m with
     | ok t => exact ⟨t, rfl⟩
-    | error e => rw [(build_error_iff m procs e).1 hb] at h0; cases h0
+    | error e => rw [(ProcessSet.build_error_iff m procs e).1 hb] at h0; cases h0
 end Tables
 
 /-! ### 5. id bounds -/
@@ -504,5 +504,50 @@ theorem tablesOf_prodIds_mem {rxns : List (RRxn α)} {j : Nat} :
   simp [tablesOf]
 
 end Bounds
+
+/-! ### the built tables drive `addForcingCell` exactly like the specification fold -/
+section BuiltKernel
+variable {α : Type} [OfNat α 0] [Add α] [Sub α] [Mul α]
+
+theorem addForcingCell_congr (t t0 : PSTables α) (h1 : t.nReact = t0.nReact) (h2 : t.reactIds = t0.reactIds)
+    (h3 : t.nProd = t0.nProd) (h4 : t.prodIds = t0.prodIds) (h5 : t.yields = t0.yields) (k y f : Array α) :
+    t.addForcingCell k y f = t0.addForcingCell k y f := by
+  unfold PSTables.addForcingCell
+  rw [h1, h2, h3, h4, h5]
+
+theorem buildForcing_ok_addForcingCell {m : NameMap} {procs : List (Process α)} {t : PSTables α}
+    {rxns : List (RRxn α)} (h : buildForcing m procs = .ok t) (hr : Resolves m procs rxns) (k y f : Array α) :
+    t.addForcingCell k y f = forcingSpec y rxns k.toList f := by
+  obtain ⟨rxns', hr', rfl⟩ := (buildForcing_ok_iff m procs t).1 h
+  have e : rxns' = rxns := by
+    rw [((resolves_iff m procs rxns').1 hr').2, ((resolves_iff m procs rxns).1 hr).2]
+  subst e
+  exact addForcingCell_tablesOf _ k y f
+
+theorem ProcessSet.build_ok_addForcingCell {m : NameMap} {procs : List (Process α)} {t : PSTables α}
+    {rxns : List (RRxn α)} (h : ProcessSet.build procs m = .ok t) (hr : Resolves m procs rxns) (k y f : Array α) :
+    t.addForcingCell k y f = forcingSpec y rxns k.toList f := by
+  obtain ⟨t0, h0, h1, h2, h3, h4, h5⟩ := ProcessSet.build_ok_forcing_fields h
+  rw [addForcingCell_congr t t0 h1 h2 h3 h4 h5]
+  exact buildForcing_ok_addForcingCell h0 hr k y f
+
+omit [OfNat α 0] [Add α] [Sub α] [Mul α] in
+theorem ProcessSet.build_ok_resolves {m : NameMap} {procs : List (Process α)} {t : PSTables α}
+    (h : ProcessSet.build procs m = .ok t) : ∃ rxns, Resolves m procs rxns := by
+  obtain ⟨t0, h0, -⟩ := ProcessSet.build_ok_forcing_fields h
+  obtain ⟨rxns, hr, -⟩ := (buildForcing_ok_iff m procs t0).1 h0
+  exact ⟨rxns, hr⟩
+
+omit [OfNat α 0] [Add α] [Sub α] [Mul α] in
+/-- with one rate constant per process, the `zip` in `forcingSpec` drops nothing -/
+theorem forcing_zip_complete {m : NameMap} {procs : List (Process α)} {rxns : List (RRxn α)}
+    (hr : Resolves m procs rxns) (ks : List α) (hk : ks.length = procs.length) :
+    (rxns.zip ks).map (·.1) = rxns ∧ (rxns.zip ks).map (·.2) = ks := by
+  have hl := hr.length_eq
+  constructor
+  · exact List.map_fst_zip (by omega)
+  · exact List.map_snd_zip (by omega)
+
+end BuiltKernel
 
 end Micm
